@@ -377,6 +377,34 @@ def run(ctx):
         if vals and vals[-1][1] is True and mk:
             built = (mk[0].get("callee") or {}).get("targs", ["?"])[0]
             seen_cases[case] = (vals[-1][0], built)
+    # every way out of create for a payload type that has a typed class passes that class's validator: a row that is consistent
+    # with `type == T` but carries no validator result (an early return in front of the dispatch) hands out an unvalidated payload
+    from cmpverif import tables
+    sel_cands = [a[4] for p in paths.return_rows(fb, cre, is_mk) for a in p.atoms if a[0] == "switch" and a[4] is not None]
+    if sel_cands:
+        selcanon = canon(strip_all_casts(sel_cands[0]))
+
+        def selector(n):
+            return canon(strip_all_casts(n)) == selcanon
+        rows = paths.return_rows(fb, cre, is_mk)
+        for cls in CLASSES:
+            pt = typed[cls]
+            if pt is None:
+                continue
+            unval = []
+            for p in rows:
+                pp = type("P", (), {"atoms": p.atoms, "value_of": lambda self, e, before=None: e})()
+                if not tables.path_consistent(pp, selector, pt, fb):
+                    continue
+                vals = [a for a in p.atoms if a[0] == "truth" and a[3].get("k") == "call" and (callee_name(a[3]) or "").endswith("::isValidPayload")]
+                mk = [x for x in walk(p.ret["e"]) if x.get("k") == "call" and (callee_name(x) or "").startswith("std::make_unique")]
+                inv = any(const_value(x) == 0 for m0 in mk for a0 in m0.get("args", [])[:1] for x in walk(a0))
+                if not vals and not inv:
+                    unval.append(p.ret)
+            res.check(not unval, "C03-R3", "create:%s:always-validated" % cls, (unval[0] if unval else cre.raw).get("loc"),
+                      "every path for payload type 0x%04X passes %s::isValidPayload" % (pt, cls),
+                      "Packet::create can return a payload of type 0x%04X (%s) without %s::isValidPayload having seen the bytes: its accessors then "
+                      "read a buffer that was never checked to hold a header" % (pt, cls, cls))
     if not seen_cases:
         raise Broken("Packet::create: no (payload type -> validator, constructed class) row could be read off its paths; the dispatch is not a "
                      "switch / if-chain over the payload type (a table of function pointers?) — re-derive C03-R3")
